@@ -189,8 +189,13 @@ def compare(ctx, case, desc, side, got_cv, exp, disps_exp, method, attrs, l_img,
     elif method == "ssd":
         bad = fin & ~np.isclose(got, exp, rtol=2e-6, atol=1e-3)
     else:
-        # zncc: float32 rounding of the products (interpolated samples) bounds the error of the covariance
-        bad = fin & ~np.isclose(got, exp, rtol=0, atol=2e-4)
+        # zncc: interval oracle - float32 rounding of the products bounds the error, amplified by 1/variance
+        tol = np.empty(exp.shape)
+        for i, d in enumerate(disps_exp):
+            tol[:, :, i] = ref.zncc_tolerance(l_img, ref.right_at(r_img.astype(np.float64), d), w)
+        border = fin & (tol > 0.05)
+        ctx.count("zncc_borderline_not_judged", int(border.sum()))
+        bad = fin & ~border & (np.abs(got - exp) > tol)
     if bad.any():
         idx = np.argwhere(bad)[:6]
         wit = [{"row": int(i[0]), "col": int(i[1]), "disp": float(disps_exp[i[2]]),
